@@ -130,14 +130,25 @@ func ruleWireFields(c *Check, p *Program, rule string) {
 	// --- block checksum
 	var wSite, wAnchor *ssa.BasicBlock
 	var wPos string
-	for _, ci := range callsInDeep(wr) {
-		if v := leEmits(ci, "PutUint32"); v != nil {
-			switch {
-			case derivesFromField(v, "FrameDataBlock.Checksum"):
-				wSite = ci.Block()
-				wPos = p.InstrPos(ci)
-			case derivesFromField(v, "FrameDataBlock.Size"):
-				wAnchor = ci.Block()
+	// in Write itself first (a word-emitting helper called with the field counts there); only when the field is not
+	// emitted there, in the helpers Write was split into
+	for pass, calls := range [][]ssa.CallInstruction{callsIn(wr), callsInDeep(wr)} {
+		if pass == 1 && wSite != nil {
+			break
+		}
+		for _, ci := range calls {
+			if v := leEmits(ci, "PutUint32"); v != nil {
+				switch {
+				case derivesFromField(v, "FrameDataBlock.Checksum"):
+					if wSite == nil {
+						wSite = ci.Block()
+						wPos = p.InstrPos(ci)
+					}
+				case derivesFromField(v, "FrameDataBlock.Size"):
+					if wAnchor == nil {
+						wAnchor = ci.Block()
+					}
+				}
 			}
 		}
 	}
